@@ -83,7 +83,27 @@ def case(draw, tier):
     # the nested NODE may read one of its two arguments passively: inner nodes that subscribe to it actively are then woken
     # out of band (the "push" half of nested scheduling) instead of through an evaluation of the nested node
     passive_arg = draw(st.integers(0, 1)) if npar == 2 and draw(st.integers(0, 2)) == 0 else None
-    return {"start": start, "end": end, "outer": outer, "sub": sub, "ins": ins, "depths": depths, "waive": waive, "passive_arg": passive_arg}
+    # where the application lives: in the root graph, or inside a dynamically created child that STARTS MID-RUN while the
+    # inputs it reads may already hold values - a switch_ branch (re-instantiated on every key change) or a map_ child
+    host = None
+    # (a sub-graph that hands an argument straight through is left to the root: what a switch_ / map_ output does when the new
+    # child's result is an already valid outer port is C12 / C13 matter)
+    if not any(isinstance(r, dict) and "outer" in r for b in body for r in b.get("ins", [])) and not isinstance(ret, dict):
+        host = draw(st.sampled_from([None, None, None, "switch", "map"]))
+    tick_dependent = False
+    if host:
+        # F28: in the cycle a dynamic child starts, its held inputs read modified=true for inlined nodes (sampled bind) and
+        # modified=false for nodes inside a nested graph node (consumers are scheduled, no modified state is fabricated).
+        # Sub-graphs whose behaviour depends on modified() are therefore kept to one hosted case in eight.
+        tick_dependent = draw(st.integers(0, 7)) == 0
+        for b in body:
+            if not tick_dependent and "tick" in (b.get("sched") or {}):
+                b["sched"]["every"] = b["sched"].get("every", []) + b["sched"].pop("tick")
+        tick_dependent = tick_dependent and any("tick" in (b.get("sched") or {}) for b in body)
+    host_times = sorted(draw(st.sets(st.integers(start, end - 1), min_size=1, max_size=3))) if host else []
+    if host:
+        passive_arg = None
+    return {"host": host, "host_times": host_times, "tick_dependent": tick_dependent, "start": start, "end": end, "outer": outer, "sub": sub, "ins": ins, "depths": depths, "waive": waive, "passive_arg": passive_arg}
 
 
 def strategy(tier):
@@ -103,6 +123,22 @@ def build(case, depth):
         # captured outer ports must be re-captured at every level: route them through the wrappers' own `outer` refs
         pass
     stmts = list(copy.deepcopy(case["outer"]))
+    if case.get("host"):
+        # H(a...) = the application (inlined or nested); H itself is the body of a switch_ branch / a map_ child
+        subs["H"] = {"params": case["sub"]["params"], "names": [f"a{j}" for j in range(npar)], "out": "TS[int]", "ret": "app",
+                     "stmts": [{"id": "app", "op": "inline" if depth == 0 else "nested", "sub": top, "ins": [{"arg": j} for j in range(npar)]}]}
+        if case["host"] == "switch":
+            stmts.append({"id": "hk", "op": "src", "schema": "TS[int]", "script": [[t, [{"k": "set", "v": i % 2}]] for i, t in enumerate(case["host_times"])]})
+            stmts.append({"id": "app", "op": "op", "name": "switch_", "has_out": True,
+                          "args": [{"ts": "hk"}, {"cases": [[0, "H"], [1, "H"]], "key_t": "int"}] + [{"ts": r} for r in case["ins"]]})
+        else:
+            subs["HM"] = {"params": ["TS[int]"] + case["sub"]["params"], "names": ["x"] + [f"a{j}" for j in range(npar)], "out": "TS[int]", "ret": "h",
+                          "stmts": [{"id": "h", "op": "inline", "sub": "H", "ins": [{"arg": j + 1} for j in range(npar)]}]}
+            ks = [[t, [{"k": "D", "ops": [["set", i % 2, i]] + ([["erase", (i + 1) % 2]] if i else [])}]] for i, t in enumerate(case["host_times"])]
+            stmts.append({"id": "hk", "op": "src", "schema": "TSD[int,TS[int]]", "script": ks})
+            stmts.append({"id": "app", "op": "op", "name": "map_", "has_out": True, "args": [{"fn": "HM"}, {"ts": "hk"}] + [{"ts": r} for r in case["ins"]]})
+        stmts.append({"id": "rec", "op": "node", "ins": ["app"], "valid": []})
+        return {"start": case["start"], "end": case["end"], "stmts": stmts, "subs": subs}
     app = {"id": "app", "op": "inline" if depth == 0 else "nested", "sub": top, "ins": list(case["ins"])}
     if depth >= 1 and case.get("passive_arg") is not None:
         app["active"] = [1 - case["passive_arg"]]      # the nested node listens to the other argument only
@@ -137,7 +173,13 @@ def check(case, ctx) -> Result:
             return res
         tr = Trace(resp["trace"])
         streams[depth] = [(t, val) for (t, val, cd) in tr.stream("rec", 0, "r")]
-        if depth >= 1:
+        if case.get("host") == "map":
+            # the sub-graph's output is the map ELEMENT: ticks of the map output that carry no valid element (the key set
+            # changing) are map_'s own business (C10), not part of the sub-graph's stream
+            streams[depth] = [(t, sorted(map(tuple, (cd or {}).get("modified") or []))) for (t, val, cd) in tr.stream("rec", 0, "r") if (cd or {}).get("modified")]
+        elif case.get("host") == "switch":
+            streams[depth] = [(t, val) for (t, val) in streams[depth] if val is not None]
+        if depth >= 1 and not case.get("host"):
             w = Walk(prog, resp, check_queries=True).run()
             facts[depth] = w.facts
             for clause, msg, feats in w.viol:
@@ -151,7 +193,8 @@ def check(case, ctx) -> Result:
             a, b = base, streams[depth]
             k = next((i for i, (x, y) in enumerate(zip(a, b)) if x != y), min(len(a), len(b)))
             res.violations.append(Viol("inline_vs_nested_differ", f"inlined result stream {a[max(0, k - 1):k + 3]} (len {len(a)}) but nested at depth {depth} gives {b[max(0, k - 1):k + 3]} (len {len(b)}); first difference at tick #{k}",
-                                       {"waives_validity": case["waive"], "first_diff_at_start": bool(k < len(b) and b[k][0] == case["start"] and (k >= len(a) or a[k][0] != case["start"]))}))
+                                       {"waives_validity": case["waive"], "first_diff_at_start": bool(k < len(b) and b[k][0] == case["start"] and (k >= len(a) or a[k][0] != case["start"])),
+                                        **({"hosted_tick_dependent": True} if case.get("host") and case.get("tick_dependent") else {})}))
             break
     # non-trivial: a self-wake in a cycle without outer tick, depth >= 2
     outer_ticks = {t for s in case["outer"] for t, _ in s["script"]}
@@ -163,6 +206,12 @@ def check(case, ctx) -> Result:
     res.nontrivial = selfwake and deep >= 2
     if selfwake:
         res.labels.append("self_wake_idle_parent")
+    if case.get("host"):
+        res.labels.append("hosted_in_" + case["host"])
+        held = any(t < case["host_times"][0] for s_ in case["outer"] for t, _ in s_["script"])
+        if held:
+            res.labels.append("host_started_with_held_input")
+        res.nontrivial = res.nontrivial or (held and len(streams.get(0, [])) >= 2)
     if case["waive"]:
         res.labels.append("waives_validity")
     if case.get("passive_arg") is not None:
